@@ -205,7 +205,7 @@ func runIter(env *common.Env, rep *common.Report) *iterStats {
 	jobs := make(chan *caseRec, 8192)
 	var wg sync.WaitGroup
 	var done int64
-	for w := 0; w < share(env, 4, 2); w++ {
+	for w := 0; w < share(env, 2, 2); w++ {
 		wg.Add(1)
 		go func() {
 			defer wg.Done()
@@ -233,7 +233,7 @@ func runIter(env *common.Env, rep *common.Report) *iterStats {
 			}
 		}()
 	}
-	res := env.MustTLC(common.TLCRun{Dir: "C05", Module: "PyIter", Config: cfg, Seed: env.Seed, Workers: share(env, 4, 2), Timeout: 14 * time.Minute,
+	res := env.MustTLC(common.TLCRun{Dir: "C05", Module: "PyIter", Config: cfg, Seed: env.Seed, Workers: share(env, 1, 2), Timeout: tlcTimeout(env),
 		OnLine: func(rec []byte) {
 			c := &caseRec{}
 			if err := json.Unmarshal(rec, c); err != nil || c.Rec != "case" {
